@@ -67,7 +67,7 @@ cfg["C05"] = {
          "thorough": P("VerifPlans", "c=2,numa=0,r=1130", "c=2,numa=0,r=290", "c=2,numa=0,r=570", "c=2,numa=0,r=1200", "c=2,numa=0,r=250", "c=2,numa=0,r=1000",
                        "c=3,numa=0,r=2290", "c=2,numa=0,r=1500,sb=10,mp=20", "c=2,numa=0,r=1010,sb=1000,mp=1000"), "samples": 2},
         {"dir": SCHED, "float": "ieee", "solver": "z3-oneshot", "timeout_s": 120, "quick": P("VerifPiecesIEEE", "c=1,sb=100,lo=27,hi=32"),
-         "thorough": P("VerifPiecesIEEE", "c=1,sb=100,lo=1,hi=100", "c=2,sb=100,lo=101,hi=200", "c=1,sb=10,lo=1,hi=10", "c=1,sb=1000,lo=1,hi=1000"), "samples": 1},
+         "thorough": P("VerifPiecesIEEE", "c=1,sb=100,lo=1,hi=100", "c=2,sb=100,lo=101,hi=130", "c=1,sb=10,lo=1,hi=10", "c=1,sb=1000,lo=275,hi=300"), "samples": 1},
         {"dir": CPUMEM, "quick": P("VerifAlloc", "c=2,numa=0,b=1,r=1130"), "thorough": P("VerifAlloc", "c=2,numa=0,b=1,r=1130", "c=2,numa=0,b=1,r=570,k=2"), "samples": 2},
     ],
     "bounds": "requests: the listed concrete requests (incl. the truncation-prone 0.29, 0.57, 1.13) on arbitrary node states; plus, with full IEEE-754 semantics (SMT FloatingPoint, RNE), every centi-core request k/100 with k in the stated range on a node of free whole-share cores",
